@@ -53,19 +53,25 @@ class LProc(object):
             self.op = "done"
         except _Abort:
             self.op = "aborted"
+            w.back.release()
+            return
         except RuntimeError as e:
             self.op, self.detail = "failed", str(e)[:200]
         except BaseException as e:  # noqa
             self.op, self.detail = "crashed", "%s: %s" % (type(e).__name__, str(e)[:200])
-        w.back.release()
+        w.handover(self, finished=True)
 
     def park(self, op):
-        """announce the next call, give control back to the scheduler, wait for our turn"""
+        """announce the next call, pass the baton as the schedule says, return when it is our turn"""
         self.op = op
-        self.world.back.release()
-        self.go.acquire()
-        if self.world.abort:
-            raise _Abort()
+        w = self.world
+        if w.running:
+            w.handover(self)
+        else:                        # start-up: run to the first call, then wait for the schedule to begin
+            w.back.release()
+            self.go.acquire()
+            if w.abort:
+                raise _Abort()
 
 
 def _me():
@@ -169,6 +175,7 @@ class World(object):
         self.back = threading.Lock()     # binary semaphore the other way round (hand-offs strictly alternate)
         self.back.acquire()
         self.abort = False
+        self.running = False
         self.seq = 0
         self.created = {}
         self.procs = {}
@@ -184,6 +191,7 @@ class World(object):
         if not os.path.isdir(self.stack):
             os.makedirs(self.stack)
         self.abort = False
+        self.running = False
         self.seq = 0
         self.created = {}
         self.procs = {}
@@ -194,13 +202,69 @@ class World(object):
             self.procs[pid].thread.start()
             self.back.acquire()         # runs until its first file-system call
 
-    def step(self, pid, choice=0):
-        lp = self.procs[pid]
-        if lp.op in TERMINAL:
+    # -- the baton: exactly one thread runs at any time.  The thread that has just finished a step records the
+    # state, looks up who is next in the schedule and wakes it directly (one thread switch per change of process,
+    # none when the same process goes on); the main thread sleeps until the schedule is exhausted.
+    def run_schedule(self, sched, drain=False, drain_limit=400):
+        self.sched = [tuple(x) for x in sched]
+        self.k = 0
+        self.eff = []
+        self.trace = [self.observe()]
+        self.drain = drain
+        self.ndrain = 0
+        self.drain_limit = drain_limit
+        self.rr = -1
+        self.order = sorted(self.procs)
+        self.running = True
+        self.handover(None)
+        self.running = False
+        return self.eff, self.trace
+
+    def _next(self):
+        while True:
+            if self.k < len(self.sched):
+                pid, ch = self.sched[self.k]
+                self.k += 1
+            elif self.drain and self.ndrain < self.drain_limit:
+                # round robin over the processes that have not finished, in pid order
+                live = [i for i, pid in enumerate(self.order) if self.procs[pid].op not in TERMINAL]
+                if not live:
+                    return None
+                later = [i for i in live if i > self.rr]
+                self.rr = later[0] if later else live[0]
+                pid, ch = self.order[self.rr], 0
+                self.ndrain += 1
+            else:
+                return None
+            self.eff.append([pid, ch])
+            lp = self.procs[pid]
+            if lp.op in TERMINAL:
+                self.trace.append(self.trace[-1])        # a finished process does nothing
+                continue
+            return lp, ch
+
+    def handover(self, me, finished=False):
+        if me is not None:
+            self.trace.append(self.observe())            # the step of `me` is complete
+        nx = self._next()
+        if nx is None:
+            if me is None:
+                return
+            self.back.release()                          # end of the schedule: wake the main thread
+        else:
+            lp, ch = nx
+            lp.choice = ch
+            if lp is me:
+                return
+            lp.go.release()
+            if me is None:
+                self.back.acquire()                      # main thread: sleep until the end of the schedule
+                return
+        if finished:
             return
-        lp.choice = choice
-        lp.go.release()
-        self.back.acquire()
+        me.go.acquire()
+        if self.abort:
+            raise _Abort()
 
     def observe(self):
         files = []
@@ -250,22 +314,7 @@ def run_cases(cases, drain_limit=400):
         w.install()
         for c in cases:
             w.reset(c["procs"])
-            sched = norm_schedule(c["schedule"])
-            eff = []
-            trace = [w.observe()]
-            for pid, ch in sched:
-                w.step(pid, ch)
-                eff.append([pid, ch])
-                trace.append(w.observe())
-            if c.get("drain"):
-                n = 0
-                while not w.finished() and n < drain_limit:
-                    for pid in sorted(w.procs):
-                        if w.procs[pid].op not in TERMINAL:
-                            w.step(pid, 0)
-                            eff.append([pid, 0])
-                            trace.append(w.observe())
-                            n += 1
+            eff, trace = w.run_schedule(norm_schedule(c["schedule"]), bool(c.get("drain")), drain_limit)
             detail = {str(pid): lp.detail for pid, lp in w.procs.items() if lp.detail}
             w.teardown()
             out.append({"schedule": eff, "trace": trace, "detail": detail})
